@@ -416,6 +416,12 @@ def run(ctx):
                       reads[0] if reads else fn, "memoised helpers are pure functions of their arguments", key=f"R18.7:{fn.name}:memoised-database-read")
     ctx.floor("R18.7", "memoised functions in the SQL adapters", n_memo, 1)
 
+    # ------------------------------------------------------------------ R18.8 "seen before" is decided by descriptor equality
+    # (write() keeps the descriptors it has created / evolved a table for in a set: equality by a lossy identifier skips the evolution of a type whose hash collides)
+    from .c15 import check_descriptor_equality
+    check_descriptor_equality(ctx, "R18.8")
+
+
 
 def _is_type_slot(prog, sq, fn, v, la) -> bool:
     """An unquoted slot is acceptable when it is an SQL type taken from FIELD_MAP (or its constant default)."""
